@@ -18,6 +18,7 @@ import XmlDiffModel.Model.Blank
 import XmlDiffModel.Model.Placeholder
 import XmlDiffModel.Model.XmlFormat
 import XmlDiffModel.Model.Dmp
+import XmlDiffModel.Model.Engine
 import Std.Data.HashMap
 open XmlDiffModel
 
@@ -479,6 +480,43 @@ def doDmp (args : List String) : String :=
     | _, _ => "bad-op"
   | _ => "bad-op"
 
+def decBisect (tbl : String) : Dmp.Bisect :=
+  let entries : List ((Str × Str) × Option (Nat × Nat)) := ((tbl.splitOn " ").filter (· ≠ "")).filterMap fun e =>
+    match e.splitOn ":" with
+    | [x1, x2, xs, ys] =>
+      let k := (decStr! x1, decStr! x2)
+      match xs.toNat?, ys.toNat? with
+      | some x, some y => some (k, some (x, y))
+      | _, _ => some (k, none)
+    | _ => none
+  let m : Std.HashMap (Str × Str) (Option (Nat × Nat)) := Std.HashMap.ofList entries
+  fun u v => m.getD (u, v) (some (10 ^ 9, 10 ^ 9))
+
+/-- xmlfmte <texttags> <fmttags> <useReplace> <normalize & WS_TEXT> <left> <right> <script> <bisect table>: as `xmlfmt`, but every engine
+answer is computed by the engine model from the text the working tree holds (`Acc.formatTreeE`) -/
+def doXmlFmtE (args : List String) : String :=
+  match args with
+  | [tt, ft, ur, ws, ls, rs, ss, tbl] =>
+    match decTree ls, decTree rs, decScript ss with
+    | some L, some R, some sc =>
+      let st0 := phInit (decStrList tt) (decStrList ft)
+      let (L1, st1) := doTree (removeComments L) st0
+      let (_, st2) := doTree (removeComments R) st1
+      let fs : FState := { tree := L1, next := 5000, ph := st2, segs := [], useReplace := ur == "1", wsText := false }
+      match Acc.formatTreeE (ws == "1") (decBisect tbl) qnPlain fs sc with
+      | .ok t => "ok " ++ encTree t
+      | .error e => s!"err {showFErr e}"
+    | _, _, _ => "bad-op"
+  | _ => "bad-op"
+
+/-- wsnorm <text>: `cleanup_whitespace(text).strip()` -/
+def doWsNorm (args : List String) : String :=
+  match args with
+  | [a] => match decStr a with
+    | some (some t) => "ok " ++ encStr (some (Acc.wsNorm t))
+    | _ => "bad-op"
+  | _ => "bad-op"
+
 def doOrders (args : List String) : String :=
   match args with
   | [ts] => match decTree ts with
@@ -531,6 +569,8 @@ def handle (line : String) : String :=
   | "plan" :: args => doPlan args
   | "ph" :: args => doPh args
   | "xmlfmt" :: args => doXmlFmt args
+  | "xmlfmte" :: args => doXmlFmtE args
+  | "wsnorm" :: args => doWsNorm args
   | "dmp" :: args => doDmp args
   | "blank" :: args => doBlank args
   | "parse" :: args => doParse args
